@@ -230,6 +230,14 @@ func verifC17(a *vh.Args) {
 					cm := newConnManager(nil)
 					x, _ := vsched.RunOnce(nil, 100000, func() *vsched.Scenario {
 						return &vsched.Scenario{Body: func() {
+							if n%2 == 1 {
+								// non-initial state: the connection manager has already handled (and given up on) a
+								// connection from another client; what is written for this one must not depend on it
+								pc := &vconn.Conn{Name: "earlier", Local: paddr, Remote: &net.TCPAddr{IP: net.IPv4(198, 51, 100, 9), Port: 40001},
+									In: []vconn.Event{{Data: noise(200, "earlier")}, {Err: io.EOF}}}
+								cm.handleNewTCPConn(rm, pc, phantom)
+								pc.Close()
+							}
 							var wg vsync.WaitGroup
 							wg.Add(1)
 							vsched.GoNamed("handler", func() {
